@@ -20,8 +20,22 @@ use crate::lib_util::*;
 
 const BAD: i64 = -999;
 
-fn tab(sink: &mut Sink, name: &str, v: Vec<i64>) {
-  sink.put(Ev::new("tab").i("s", 1).s("t", name).a("v", &v).done());
+/// collected table events of one pass (w = 0: cold process; 1 / 2: after every name of every cycle has been looked
+/// up in every named type, types taken in forward / reverse order — a lookup must not change any later answer)
+pub struct Out {
+  pub w: i64,
+  pub lines: Vec<String>,
+}
+
+impl Out {
+  fn put(&mut self, l: String) {
+    self.lines.push(l);
+  }
+}
+
+fn tab(sink: &mut Out, name: &str, v: Vec<i64>) {
+  let w = sink.w;
+  sink.put(Ev::new("tab").i("s", 1).i("w", w).s("t", name).a("v", &v).done());
 }
 
 fn each<F: Fn(i64) -> i64>(n: i64, f: F) -> Vec<i64> {
@@ -47,30 +61,65 @@ fn pillar_with(stem: i64, branch: i64) -> SixtyCycle {
 pub fn run(ctx: &Ctx) -> usize {
   let mut sink = ctx.sink("Trace_C19", "tab");
   sink.segment();
+  let mut o = Out { w: 0, lines: Vec::new() };
+  tables(&mut o);
+  for l in o.lines {
+    sink.put(l);
+  }
+  // the same tables from two fresh processes that first look every name up in every named type
+  for w in [1i64, 2] {
+    let exe = std::env::current_exe().unwrap();
+    let out = std::process::Command::new(exe).arg("c19warm").arg(w.to_string()).output();
+    match out {
+      Ok(o) => {
+        for l in String::from_utf8_lossy(&o.stdout).lines() {
+          if l.starts_with('{') {
+            sink.put(l.to_string());
+          }
+        }
+      }
+      Err(_) => sink.put(Ev::new("tab").i("s", 1).i("w", w).s("t", "process-failed").a("v", &[]).done()),
+    }
+  }
+  sink.total
+}
+
+/// `tvh c19warm <1|2>`: warm-up of the name lookups, then all tables on stdout
+pub fn warm(args: &[String]) {
+  let w: i64 = args.first().and_then(|x| x.parse().ok()).unwrap_or(1);
+  crate::c11::warm_names(w == 2);
+  let mut o = Out { w, lines: Vec::new() };
+  tables(&mut o);
+  for l in o.lines {
+    println!("{}", l);
+  }
+}
+
+fn tables(sink: &mut Out) {
   let st = |i: i64| HeavenStem::from_index(i as isize);
   let br = |i: i64| EarthBranch::from_index(i as isize);
   let sc = |i: i64| SixtyCycle::from_index(i as isize);
   let yy = |y: YinYang| if y == YinYang::YANG { 1 } else { 0 };
   // stems
-  tab(&mut sink, "stem_element", each(10, |i| st(i).get_element().get_index() as i64));
-  tab(&mut sink, "stem_polarity", each(10, |i| yy(st(i).get_yin_yang())));
-  tab(&mut sink, "stem_direction", each(10, |i| st(i).get_direction().get_index() as i64));
-  tab(&mut sink, "stem_joy", each(10, |i| st(i).get_joy_direction().get_index() as i64));
-  tab(&mut sink, "stem_yang_noble", each(10, |i| st(i).get_yang_direction().get_index() as i64));
-  tab(&mut sink, "stem_yin_noble", each(10, |i| st(i).get_yin_direction().get_index() as i64));
-  tab(&mut sink, "stem_wealth", each(10, |i| st(i).get_wealth_direction().get_index() as i64));
-  tab(&mut sink, "stem_mascot", each(10, |i| st(i).get_mascot_direction().get_index() as i64));
-  tab(&mut sink, "stem_combine", each(10, |i| st(i).get_combine().get_index() as i64));
-  tab(&mut sink, "stem_combine_element", each(100, |k| st(k / 10).combine(st(k % 10)).map(|e| e.get_index() as i64).unwrap_or(-1)));
-  tab(&mut sink, "stem_terrain", each(120, |k| st(k / 12).get_terrain(br(k % 12)).get_index() as i64));
-  tab(&mut sink, "stem_ten_star", each(100, |k| st(k / 10).get_ten_star(st(k % 10)).get_index() as i64));
+  tab(sink, "stem_element", each(10, |i| st(i).get_element().get_index() as i64));
+  tab(sink, "stem_polarity", each(10, |i| yy(st(i).get_yin_yang())));
+  tab(sink, "stem_direction", each(10, |i| st(i).get_direction().get_index() as i64));
+  tab(sink, "stem_joy", each(10, |i| st(i).get_joy_direction().get_index() as i64));
+  tab(sink, "stem_yang_noble", each(10, |i| st(i).get_yang_direction().get_index() as i64));
+  tab(sink, "stem_yin_noble", each(10, |i| st(i).get_yin_direction().get_index() as i64));
+  tab(sink, "stem_wealth", each(10, |i| st(i).get_wealth_direction().get_index() as i64));
+  tab(sink, "stem_mascot", each(10, |i| st(i).get_mascot_direction().get_index() as i64));
+  tab(sink, "stem_combine", each(10, |i| st(i).get_combine().get_index() as i64));
+  tab(sink, "stem_combine_element", each(100, |k| st(k / 10).combine(st(k % 10)).map(|e| e.get_index() as i64).unwrap_or(-1)));
+  tab(sink, "stem_terrain", each(120, |k| st(k / 12).get_terrain(br(k % 12)).get_index() as i64));
+  tab(sink, "stem_ten_star", each(100, |k| st(k / 10).get_ten_star(st(k % 10)).get_index() as i64));
   // branches
-  tab(&mut sink, "branch_element", each(12, |i| br(i).get_element().get_index() as i64));
-  tab(&mut sink, "branch_polarity", each(12, |i| yy(br(i).get_yin_yang())));
-  tab(&mut sink, "branch_direction", each(12, |i| br(i).get_direction().get_index() as i64));
-  tab(&mut sink, "branch_hidden_main", each(12, |i| br(i).get_hide_heaven_stem_main().get_index() as i64));
-  tab(&mut sink, "branch_hidden_middle", each(12, |i| br(i).get_hide_heaven_stem_middle().map(|s| s.get_index() as i64).unwrap_or(-1)));
-  tab(&mut sink, "branch_hidden_residual", each(12, |i| br(i).get_hide_heaven_stem_residual().map(|s| s.get_index() as i64).unwrap_or(-1)));
+  tab(sink, "branch_element", each(12, |i| br(i).get_element().get_index() as i64));
+  tab(sink, "branch_polarity", each(12, |i| yy(br(i).get_yin_yang())));
+  tab(sink, "branch_direction", each(12, |i| br(i).get_direction().get_index() as i64));
+  tab(sink, "branch_hidden_main", each(12, |i| br(i).get_hide_heaven_stem_main().get_index() as i64));
+  tab(sink, "branch_hidden_middle", each(12, |i| br(i).get_hide_heaven_stem_middle().map(|s| s.get_index() as i64).unwrap_or(-1)));
+  tab(sink, "branch_hidden_residual", each(12, |i| br(i).get_hide_heaven_stem_residual().map(|s| s.get_index() as i64).unwrap_or(-1)));
   // the list view: for each branch up to three (stem, type code 2 main / 1 middle / 0 residual) pairs, padded with -1
   {
     let mut v = Vec::new();
@@ -94,47 +143,47 @@ pub fn run(ctx: &Ctx) -> usize {
         }
       }
     }
-    tab(&mut sink, "branch_hidden_list", v);
+    tab(sink, "branch_hidden_list", v);
   }
-  tab(&mut sink, "branch_zodiac", each(12, |i| br(i).get_zodiac().get_index() as i64));
-  tab(&mut sink, "branch_opposite", each(12, |i| br(i).get_opposite().get_index() as i64));
-  tab(&mut sink, "branch_ominous", each(12, |i| br(i).get_ominous().get_index() as i64));
-  tab(&mut sink, "branch_combine", each(12, |i| br(i).get_combine().get_index() as i64));
-  tab(&mut sink, "branch_combine_element", each(144, |k| br(k / 12).combine(br(k % 12)).map(|e| e.get_index() as i64).unwrap_or(-1)));
-  tab(&mut sink, "branch_harm", each(12, |i| br(i).get_harm().get_index() as i64));
+  tab(sink, "branch_zodiac", each(12, |i| br(i).get_zodiac().get_index() as i64));
+  tab(sink, "branch_opposite", each(12, |i| br(i).get_opposite().get_index() as i64));
+  tab(sink, "branch_ominous", each(12, |i| br(i).get_ominous().get_index() as i64));
+  tab(sink, "branch_combine", each(12, |i| br(i).get_combine().get_index() as i64));
+  tab(sink, "branch_combine_element", each(144, |k| br(k / 12).combine(br(k % 12)).map(|e| e.get_index() as i64).unwrap_or(-1)));
+  tab(sink, "branch_harm", each(12, |i| br(i).get_harm().get_index() as i64));
   // pillars
-  tab(&mut sink, "pillar_stem", each(60, |i| sc(i).get_heaven_stem().get_index() as i64));
-  tab(&mut sink, "pillar_branch", each(60, |i| sc(i).get_earth_branch().get_index() as i64));
-  tab(&mut sink, "pillar_sound", each(60, |i| sc(i).get_sound().get_index() as i64));
-  tab(&mut sink, "pillar_sound_element", each(60, |i| element_of_char(sc(i).get_sound().get_name().chars().last().unwrap())));
-  tab(&mut sink, "pillar_xun", each(60, |i| sc(i).get_ten().get_index() as i64));
-  tab(&mut sink, "pillar_xun_head", each(60, |i| SixtyCycle::from_name(&sc(i).get_ten().get_name()).get_index() as i64));
-  tab(&mut sink, "pillar_void1", each(60, |i| sc(i).get_extra_earth_branches()[0].get_index() as i64));
-  tab(&mut sink, "pillar_void2", each(60, |i| sc(i).get_extra_earth_branches()[1].get_index() as i64));
-  tab(&mut sink, "pillar_void_count", each(60, |i| sc(i).get_extra_earth_branches().len() as i64));
-  tab(&mut sink, "fetus_stem", each(60, |i| FetusDay::new(sc(i)).get_fetus_heaven_stem().get_index() as i64));
-  tab(&mut sink, "fetus_branch", each(60, |i| FetusDay::new(sc(i)).get_fetus_earth_branch().get_index() as i64));
-  tab(&mut sink, "fetus_side", each(60, |i| if FetusDay::new(sc(i)).get_side() == Side::OUT { 1 } else { 0 }));
-  tab(&mut sink, "fetus_direction", each(60, |i| FetusDay::new(sc(i)).get_direction().get_index() as i64));
-  tab(&mut sink, "pengzu_stem", each(60, |i| PengZu::from_sixty_cycle(sc(i)).get_peng_zu_heaven_stem().get_index() as i64));
-  tab(&mut sink, "pengzu_branch", each(60, |i| PengZu::from_sixty_cycle(sc(i)).get_peng_zu_earth_branch().get_index() as i64));
+  tab(sink, "pillar_stem", each(60, |i| sc(i).get_heaven_stem().get_index() as i64));
+  tab(sink, "pillar_branch", each(60, |i| sc(i).get_earth_branch().get_index() as i64));
+  tab(sink, "pillar_sound", each(60, |i| sc(i).get_sound().get_index() as i64));
+  tab(sink, "pillar_sound_element", each(60, |i| element_of_char(sc(i).get_sound().get_name().chars().last().unwrap())));
+  tab(sink, "pillar_xun", each(60, |i| sc(i).get_ten().get_index() as i64));
+  tab(sink, "pillar_xun_head", each(60, |i| SixtyCycle::from_name(&sc(i).get_ten().get_name()).get_index() as i64));
+  tab(sink, "pillar_void1", each(60, |i| sc(i).get_extra_earth_branches()[0].get_index() as i64));
+  tab(sink, "pillar_void2", each(60, |i| sc(i).get_extra_earth_branches()[1].get_index() as i64));
+  tab(sink, "pillar_void_count", each(60, |i| sc(i).get_extra_earth_branches().len() as i64));
+  tab(sink, "fetus_stem", each(60, |i| FetusDay::new(sc(i)).get_fetus_heaven_stem().get_index() as i64));
+  tab(sink, "fetus_branch", each(60, |i| FetusDay::new(sc(i)).get_fetus_earth_branch().get_index() as i64));
+  tab(sink, "fetus_side", each(60, |i| if FetusDay::new(sc(i)).get_side() == Side::OUT { 1 } else { 0 }));
+  tab(sink, "fetus_direction", each(60, |i| FetusDay::new(sc(i)).get_direction().get_index() as i64));
+  tab(sink, "pengzu_stem", each(60, |i| PengZu::from_sixty_cycle(sc(i)).get_peng_zu_heaven_stem().get_index() as i64));
+  tab(sink, "pengzu_branch", each(60, |i| PengZu::from_sixty_cycle(sc(i)).get_peng_zu_earth_branch().get_index() as i64));
   // the taboo sentence of a stem / branch starts with that stem / branch
-  tab(&mut sink, "pengzu_stem_char", each(10, |i| {
+  tab(sink, "pengzu_stem_char", each(10, |i| {
     let n = PengZu::from_sixty_cycle(sc(i)).get_peng_zu_heaven_stem().get_name();
     if n.chars().next() == st(i).get_name().chars().next() { 1 } else { 0 }
   }));
-  tab(&mut sink, "pengzu_branch_char", each(12, |i| {
+  tab(sink, "pengzu_branch_char", each(12, |i| {
     let n = PengZu::from_sixty_cycle(sc(i)).get_peng_zu_earth_branch().get_name();
     if n.chars().next() == br(i).get_name().chars().next() { 1 } else { 0 }
   }));
   // elements and directions
   let el = |i: i64| Element::from_index(i as isize);
-  tab(&mut sink, "element_reinforce", each(5, |i| el(i).get_reinforce().get_index() as i64));
-  tab(&mut sink, "element_restrain", each(5, |i| el(i).get_restrain().get_index() as i64));
-  tab(&mut sink, "element_reinforced", each(5, |i| el(i).get_reinforced().get_index() as i64));
-  tab(&mut sink, "element_restrained", each(5, |i| el(i).get_restrained().get_index() as i64));
-  tab(&mut sink, "element_direction", each(5, |i| el(i).get_direction().get_index() as i64));
-  tab(&mut sink, "direction_element", each(9, |i| Direction::from_index(i as isize).get_element().get_index() as i64));
+  tab(sink, "element_reinforce", each(5, |i| el(i).get_reinforce().get_index() as i64));
+  tab(sink, "element_restrain", each(5, |i| el(i).get_restrain().get_index() as i64));
+  tab(sink, "element_reinforced", each(5, |i| el(i).get_reinforced().get_index() as i64));
+  tab(sink, "element_restrained", each(5, |i| el(i).get_restrained().get_index() as i64));
+  tab(sink, "element_direction", each(5, |i| el(i).get_direction().get_index() as i64));
+  tab(sink, "direction_element", each(9, |i| Direction::from_index(i as isize).get_element().get_index() as i64));
   // zodiac signs: every day of a leap year in order
   {
     let mut v = Vec::new();
@@ -145,30 +194,30 @@ pub fn run(ctx: &Ctx) -> usize {
         }
       }
     }
-    tab(&mut sink, "zodiac_sign", v);
+    tab(sink, "zodiac_sign", v);
   }
   // foetus spirit of lunar months (regular month m -> index, leap month -> -1)
-  tab(&mut sink, "fetus_month", each(12, |i| LunarMonth::from_ym(2023, i as isize + 1).get_fetus().map(|f| f.get_index() as i64).unwrap_or(-1)));
-  tab(&mut sink, "fetus_month_leap", vec![catch(|| LunarMonth::from_ym(2023, -2).get_fetus().map(|f| f.get_index() as i64).unwrap_or(-1)).unwrap_or(BAD)]);
-  tab(&mut sink, "fetus_month_cycle", each(12, |i| FetusMonth::from_index(i as isize).get_index() as i64));
+  tab(sink, "fetus_month", each(12, |i| LunarMonth::from_ym(2023, i as isize + 1).get_fetus().map(|f| f.get_index() as i64).unwrap_or(-1)));
+  tab(sink, "fetus_month_leap", vec![catch(|| LunarMonth::from_ym(2023, -2).get_fetus().map(|f| f.get_index() as i64).unwrap_or(-1)).unwrap_or(BAD)]);
+  tab(sink, "fetus_month_cycle", each(12, |i| FetusMonth::from_index(i as isize).get_index() as i64));
   // mansions
   let ms = |i: i64| TwentyEightStar::from_index(i as isize);
-  tab(&mut sink, "mansion_luminary", each(28, |i| ms(i).get_seven_star().get_index() as i64));
-  tab(&mut sink, "mansion_field_direction", each(28, |i| ms(i).get_land().get_direction().get_index() as i64));
-  tab(&mut sink, "mansion_field", each(28, |i| ms(i).get_land().get_index() as i64));
-  tab(&mut sink, "mansion_zone", each(28, |i| ms(i).get_zone().get_index() as i64));
-  tab(&mut sink, "mansion_beast", each(28, |i| ms(i).get_zone().get_beast().get_index() as i64));
-  tab(&mut sink, "mansion_zone_direction", each(28, |i| ms(i).get_zone().get_direction().get_index() as i64));
-  tab(&mut sink, "mansion_animal", each(28, |i| ms(i).get_animal().get_index() as i64));
-  tab(&mut sink, "mansion_luck", each(28, |i| ms(i).get_luck().get_index() as i64));
-  tab(&mut sink, "land_direction", each(9, |i| Land::from_index(i as isize).get_direction().get_index() as i64));
-  tab(&mut sink, "zone_direction", each(4, |i| Zone::from_index(i as isize).get_direction().get_index() as i64));
+  tab(sink, "mansion_luminary", each(28, |i| ms(i).get_seven_star().get_index() as i64));
+  tab(sink, "mansion_field_direction", each(28, |i| ms(i).get_land().get_direction().get_index() as i64));
+  tab(sink, "mansion_field", each(28, |i| ms(i).get_land().get_index() as i64));
+  tab(sink, "mansion_zone", each(28, |i| ms(i).get_zone().get_index() as i64));
+  tab(sink, "mansion_beast", each(28, |i| ms(i).get_zone().get_beast().get_index() as i64));
+  tab(sink, "mansion_zone_direction", each(28, |i| ms(i).get_zone().get_direction().get_index() as i64));
+  tab(sink, "mansion_animal", each(28, |i| ms(i).get_animal().get_index() as i64));
+  tab(sink, "mansion_luck", each(28, |i| ms(i).get_luck().get_index() as i64));
+  tab(sink, "land_direction", each(9, |i| Land::from_index(i as isize).get_direction().get_index() as i64));
+  tab(sink, "zone_direction", each(4, |i| Zone::from_index(i as isize).get_direction().get_index() as i64));
   // nine stars
   let ns = |i: i64| NineStar::from_index(i as isize);
-  tab(&mut sink, "ninestar_element", each(9, |i| ns(i).get_element().get_index() as i64));
-  tab(&mut sink, "ninestar_direction", each(9, |i| ns(i).get_direction().get_index() as i64));
-  tab(&mut sink, "ninestar_dipper", each(9, |i| ns(i).get_dipper().get_index() as i64));
-  tab(&mut sink, "ninestar_colour", each(9, |i| match ns(i).get_color().as_str() {
+  tab(sink, "ninestar_element", each(9, |i| ns(i).get_element().get_index() as i64));
+  tab(sink, "ninestar_direction", each(9, |i| ns(i).get_direction().get_index() as i64));
+  tab(sink, "ninestar_dipper", each(9, |i| ns(i).get_dipper().get_index() as i64));
+  tab(sink, "ninestar_colour", each(9, |i| match ns(i).get_color().as_str() {
     "白" => 0,
     "黑" => 1,
     "碧" => 2,
@@ -179,16 +228,16 @@ pub fn run(ctx: &Ctx) -> usize {
     _ => BAD,
   }));
   // twelve spirits, minor Liu Ren, twenty-year periods, pentads
-  tab(&mut sink, "twelve_ecliptic", each(12, |i| TwelveStar::from_index(i as isize).get_ecliptic().get_index() as i64));
-  tab(&mut sink, "ecliptic_luck", each(2, |i| Ecliptic::from_index(i as isize).get_luck().get_index() as i64));
-  tab(&mut sink, "minor_ren_luck", each(6, |i| MinorRen::from_index(i as isize).get_luck().get_index() as i64));
-  tab(&mut sink, "minor_ren_element", each(6, |i| MinorRen::from_index(i as isize).get_element().get_index() as i64));
-  tab(&mut sink, "twenty_sixty", each(9, |i| Twenty::from_index(i as isize).get_sixty().get_index() as i64));
-  tab(&mut sink, "phenology_three", each(72, |i| Phenology::from_index(i as isize).get_three_phenology().get_index() as i64));
+  tab(sink, "twelve_ecliptic", each(12, |i| TwelveStar::from_index(i as isize).get_ecliptic().get_index() as i64));
+  tab(sink, "ecliptic_luck", each(2, |i| Ecliptic::from_index(i as isize).get_luck().get_index() as i64));
+  tab(sink, "minor_ren_luck", each(6, |i| MinorRen::from_index(i as isize).get_luck().get_index() as i64));
+  tab(sink, "minor_ren_element", each(6, |i| MinorRen::from_index(i as isize).get_element().get_index() as i64));
+  tab(sink, "twenty_sixty", each(9, |i| Twenty::from_index(i as isize).get_sixty().get_index() as i64));
+  tab(sink, "phenology_three", each(72, |i| Phenology::from_index(i as isize).get_three_phenology().get_index() as i64));
   // eight-character derived signs
   let ec = |y: SixtyCycle, m: SixtyCycle, d: SixtyCycle, h: SixtyCycle| EightChar::from_sixty_cycle(y, m, d, h);
-  tab(&mut sink, "fetal_origin", each(60, |i| ec(sc(0), sc(i), sc(0), sc(0)).get_fetal_origin().get_index() as i64));
-  tab(&mut sink, "fetal_breath", each(60, |i| ec(sc(0), sc(2), sc(i), sc(0)).get_fetal_breath().get_index() as i64));
+  tab(sink, "fetal_origin", each(60, |i| ec(sc(0), sc(i), sc(0), sc(0)).get_fetal_origin().get_index() as i64));
+  tab(sink, "fetal_breath", each(60, |i| ec(sc(0), sc(2), sc(i), sc(0)).get_fetal_breath().get_index() as i64));
   // own / body sign over year stem x month branch x hour branch
   let sign = |which: i64, k: i64| -> i64 {
     let (ys, mb, hb) = (k / 144, (k / 12) % 12, k % 12);
@@ -198,7 +247,6 @@ pub fn run(ctx: &Ctx) -> usize {
     let e = ec(y, m, sc(0), h);
     if which == 0 { e.get_own_sign().get_index() as i64 } else { e.get_body_sign().get_index() as i64 }
   };
-  tab(&mut sink, "own_sign", each(1440, |k| sign(0, k)));
-  tab(&mut sink, "body_sign", each(1440, |k| sign(1, k)));
-  sink.total
+  tab(sink, "own_sign", each(1440, |k| sign(0, k)));
+  tab(sink, "body_sign", each(1440, |k| sign(1, k)));
 }
